@@ -273,6 +273,12 @@ U(id="C01.sym.slot", props=["C01", "C03"], file="enc/encoder.rs", extra_files=["
 U(id="C19.props", props=["C19", "C03", "C18"], file="enc/lzma2_writer.rs", stubs=[], harnesses=["c19_props_roundtrip", "c19_presets_in_range"],
   functions=[("src/enc/lzma2_writer.rs", "get_props"), ("src/enc/lzma2_writer.rs", "with_preset"), ("src/enc/lzma2_writer.rs", "set_preset"), ("src/enc/lzma2_writer.rs", "get_extra_size_before")],
   contract="in-range (lc,lp,pb) <-> properties byte <= 224 bijectively (the readers' decomposition recovers them); every preset yields in-range options")
+U(id="C01.l2.w", props=["C01", "C03", "C18"], file="enc/lzma2_writer.rs", extra_files=["enc/range_enc.rs"],
+  harnesses=["c01_l2_write_lzma", "c01_l2_write_uncompressed", "c01_l2_new_flags"],
+  contract_stubs=["LZMA2Writer encoder storage zeroed (never driven); LZEncoderData::copy_uncompressed -> records (backward,len); LZMAEncoder::new -> zeroed pair"],
+  functions=[("src/enc/lzma2_writer.rs", "write_lzma"), ("src/enc/lzma2_writer.rs", "write_uncompressed"), ("src/enc/lzma2_writer.rs", "new", "LZMA2Writer"),
+             ("src/enc/lzma2_writer.rs", "should_start_independent_chunk"), ("src/enc/range_enc.rs", "write_to")],
+  contract="chunk headers = xz LZMA2 grammar for every size/flag/props state; props byte present iff announced; dictionary reset announced iff needed; uncompressed data split in contiguous 64 KiB pieces; protocol invariant (independent-chunk request implies dict-reset and props requests) preserved by every step")
 
 # ---------------------------------------------------------------------------------------- quick-tier budget
 # Harnesses kept in the quick tier per unit; every other harness of the unit runs in the thorough tier only.
